@@ -2,7 +2,7 @@
 From Coq Require Import List NArith ZArith Bool.
 From Coq.Strings Require Import Byte.
 From Model Require Import Bytes Utf8 Frame Parser FrameParser Conn.
-From Proofs Require Import ConnFacts TraceFacts ViolationFacts GenTie DeliveryFacts StreamViolation.
+From Proofs Require Import ConnFacts TraceFacts ViolationFacts GenTie DeliveryFacts StreamViolation StreamViolation2.
 From Gen Require Import GenFrame GenStatus.
 Import ListNotations.
 Open Scope N_scope.
@@ -103,6 +103,61 @@ Theorem C04_header_violation_after_conforming_prefix : forall cf app, benign app
   perrors (k_tr (fst r)) = false :: perrors (k_tr c).
 Proof. exact header_violation_after_prefix. Qed.
 Print Assumptions C04_header_violation_after_conforming_prefix.
+
+(* ... for a frame that announces 2^63 bytes or more in the 64-bit length form (any other header bits, masked or not,
+   followed by ANY bytes): refused as soon as the length field is complete *)
+Theorem C04_length_violation_after_conforming_prefix : forall cf app, benign app -> zpos (c_ping_timeout cf) = None ->
+  forall fs lfs c open ms open' h len rest,
+  idle c open -> data_head open -> Forall plain fs -> forms_ok fs lfs ->
+  ref_messages open fs = Some (ms, open') ->
+  h_op h < 16 -> 9223372036854775808 <= len < 18446744073709551616 ->
+  let r := feedf cf app c (encode_all fs lfs ++ hdr_bytes_m h L64 len ++ rest) in
+  snd r <> SOk /\
+  msg_events (k_tr (fst r)) = rev (map ev_of ms) ++ msg_events (k_tr c) /\
+  perrors (k_tr (fst r)) = false :: perrors (k_tr c).
+Proof. exact length_violation_after_prefix. Qed.
+Print Assumptions C04_length_violation_after_conforming_prefix.
+
+(* ... for a masked frame from the server whose header is otherwise well-formed (any opcode, FIN, length form, key and
+   payload bytes): exactly one ProtocolError, the frame is never delivered.  The error is the critical kind only when the
+   frame is textual and its (still masked) payload bytes fail the streaming UTF-8 check before the frame is complete *)
+Theorem C04_masked_frame_after_conforming_prefix : forall cf app, benign app -> zpos (c_ping_timeout cf) = None ->
+  forall fs lfs c open ms open' h lf key p rest,
+  idle c open -> data_head open -> Forall plain fs -> forms_ok fs lfs ->
+  ref_messages open fs = Some (ms, open') ->
+  h_mask h = true -> h_op h < 16 -> form_ok lf (blen p) = true -> validate_err false h (blen p) = false ->
+  length key = 4%nat ->
+  let r := feedf cf app c (encode_all fs lfs ++ hdr_bytes_m h lf (blen p) ++ key ++ p ++ rest) in
+  snd r <> SOk /\
+  msg_events (k_tr (fst r)) = rev (map ev_of ms) ++ msg_events (k_tr c) /\
+  exists crit, perrors (k_tr (fst r)) = crit :: perrors (k_tr c) /\
+               (crit = true -> h_op h = OP_TEXT \/ h_op h = OP_CONT).
+Proof. exact masked_frame_after_prefix. Qed.
+Print Assumptions C04_masked_frame_after_conforming_prefix.
+
+(* ... and for the message-level violations of a Close frame (one-byte payload; reason not UTF-8: critical; reserved or
+   out-of-range status code), in any length form, followed by ANY bytes: no Closing/Closed event, one ProtocolError *)
+Theorem C04_bad_close_after_conforming_prefix : forall cf app, benign app -> zpos (c_ping_timeout cf) = None ->
+  forall fs lfs c open ms open' f lf rest e,
+  idle c open -> data_head open -> Forall plain fs -> forms_ok fs lfs ->
+  ref_messages open fs = Some (ms, open') ->
+  plain f -> f_op f = OP_CLOSE -> f_fin f = true -> blen (f_payload f) <= 125 -> form_ok lf (blen (f_payload f)) = true ->
+  bad_close (f_payload f) e ->
+  let r := feedf cf app c (encode_all fs lfs ++ enc_frame f lf ++ rest) in
+  snd r <> SOk /\
+  msg_events (k_tr (fst r)) = rev (map ev_of ms) ++ msg_events (k_tr c) /\
+  perrors (k_tr (fst r)) = (match e with MCritical => true | MProtocol => false end) :: perrors (k_tr c).
+Proof. exact bad_close_after_prefix. Qed.
+Print Assumptions C04_bad_close_after_conforming_prefix.
+
+Example C04_bad_close_nonvacuous :
+  bad_close [x03; xed] MProtocol /\ bad_close [x03] MProtocol /\ bad_close [x03; xe8; xff] MCritical /\
+  form_wire L64 9223372036854775808 = true.
+Proof.
+  split; [right; right; exists x03, xed, []; repeat split; reflexivity|].
+  split; [left; exists x03; split; reflexivity|].
+  split; [right; left; exists x03, xe8, [xff]; repeat split; reflexivity|reflexivity].
+Qed.
 
 Example C04_nonvacuous :
   header_violation false {| h_fin := true; h_r1 := false; h_r2 := false; h_r3 := false; h_op := 9; h_mask := false |} 126 /\
